@@ -87,6 +87,15 @@ def run(name, tiers=("quick", "thorough")):
                 break
         else:
             res["detected_by"] = None
+            # a clause of this property that is decided by another property's check (e.g. a concurrency clause)
+            for other in meta.get("also_checks", []):
+                rcc, outc = sh([os.path.join(RUN, "check"), other, "quick"], cwd=RUN, timeout=7200)
+                lines = [l for l in outc.split("\n") if l.startswith("VIOLATION")]
+                res["also_" + other] = {"exit": rcc, "lines": [l[:300] for l in lines]}
+                if lines:
+                    res["detected_by"] = "quick (check of " + other + ")"
+                    res["concrete_input"] = "no-failing-input-found" not in lines[0]
+                    break
     finally:
         if os.path.exists(demo_dst):
             os.remove(demo_dst)
